@@ -41,6 +41,11 @@ Mutants (checks/mutants/C10; each `VERIF_REPO=/tmp/comp-x bin/check C10 quick` e
   protocol-unchecked.diff   DNSKEY protocol not looked at                   -> pass 2 verify-accepts-invalid:forge-key-protocol:protocol
   ecdsa-s-left-aligned.diff sign() right-aligns R but left-aligns S in the fixed-width R|S -> finish (1) dnssec/sign-signature-encoding:ecdsa-short-s
                             (deterministic: the signer handed to Sign makes S short by 1 and by 2 octets, P-256 and P-384, every run)
+  signer-tolower-unicode.diff  signAsIs folds the signer with strings.ToLower (seed C10-7) -> finish (1) sign-not-over-canonical-octets:*:raw-utf8 and
+                            pass 2 verify-rejects-valid:*:raw-utf8: two cases in eight live in zones with octets >= 0x80 (\u00c9xample.Com., KELVIN SIGN
+                            + \u00d6rg, non-UTF-8 octets), one of them spelled RAW in every Go string of the case (rawtag raw-utf8 | raw-nonutf8)
+  ecdsa-trailing-octets.diff   ECDSA Verify ignores octets after R|S (seed C10-9) -> pass 2 verify-accepts-invalid:signature:signature-extended
+                            (every signature, every algorithm: zero appended, two octets appended, doubled, zero prepended)
   equal-overfolds.diff      labels.go equal() takes any two octets 0x20 apart (>= 'A') for one letter: [ {, ] }, ^ ~ -> pass 2
                             verify-accepts-invalid:forge-key-owner-xor20:signer and ...:forge-rrsig-owner-xor20:owner (stdlib-signed variants whose
                             DNSKEY owner / RRSIG owner differs from the signer / RRset owner in one octet by 0x20; a window of octet values per
@@ -49,9 +54,11 @@ Mutants (checks/mutants/C10; each `VERIF_REPO=/tmp/comp-x bin/check C10 quick` e
                             verify-rejects-valid:NXT:rdata-name-case, verify-accepts-invalid:signature:unaltered:NXT:rdata-name-uppercase
   reintroduce-star-prefix-wildcard.diff   reverse of fix f3cd792            -> pass 1 sign-fields:Labels:star-prefixed-label; finish (1) ...:star-prefixed-label
   reintroduce-root-wildcard-dotdot.diff   reverse of fix ffb8107            -> pass 1 sign-error:wildcard-at-root (when *. is drawn); pass 2 verify-rejects-valid:wildcard-at-root
+Benign (checks/benign/C10, must exit 0): dedup-first-prechecks-reordered.diff (duplicates dropped through a map before a stable sort;
+the key pre-checks in another order).
 Findings of this check on the originally pinned tree, since repaired in /repo: NXT next name not lower-cased (fb0255f); Sign took every
 owner starting with '*' for a wildcard (f3cd792: *a.example. signed as *.example., verifying for any name below example.); "*.." for a
-wildcard below the root (ffb8107).  Still listed: capital letters spelled \\DDD in the owner text are not folded (known-findings.d/C10.txt).
+wildcard below the root (ffb8107).  Still listed: CanonicalName (strings.Map) replaces raw non-UTF-8 octets >= 0x80 by U+FFFD (keys ...:raw-nonutf8); capital letters spelled \\DDD in the owner text are not folded (known-findings.d/C10.txt).
 """
 import os, json
 import vp
